@@ -112,6 +112,19 @@ Theorem C01_hup_refuses_pending_conf : forall r t ents l e,
 Proof. exact hup_refuses_pending_conf. Qed.
 Print Assumptions C01_hup_refuses_pending_conf.
 
+(* (12) with (11) and the slice theorem of the log model: over a well-formed MemoryStorage-backed log, a
+        configuration change at ANY index of (applied, committed] makes hup return without campaigning — the
+        campaign check cannot be hidden by a page size (regression corpus/C01: paged backlog) *)
+Theorem C01_hup_refuses_unapplied_conf_change : forall r t m off i e,
+  ProofsLog.wf_mlog (r_log r) m off ->
+  ProofsLog.mfirst (r_log r) off <= l_applied (r_log r) + 1 -> committed r <= ProofsLog.mlast (r_log r) m off ->
+  (forall X, ProofsLog.good (l_u (r_log r)) m off (l_applied (r_log r) + 1) X -> fold_right (fun e a => esz e + a) 0 X <= no_limit) ->
+  l_applied (r_log r) < i -> i <= committed r ->
+  ProofsLog.log_entry (l_u (r_log r)) m off i = Some e -> is_conf e = true ->
+  hup r t = Ok r.
+Proof. exact hup_refuses_unapplied_conf_change. Qed.
+Print Assumptions C01_hup_refuses_unapplied_conf_change.
+
 
 (* ====================================================================================== *)
 (* The property over all schedules, on the abstract protocol of coq/RaftAbs (Model.v: per-node term /
